@@ -378,6 +378,55 @@ def ob_assigned_detection(run, mir, rp, fam):
     e2.prove(run, ob, ex, [], conj(claims), {}, fam.as_replay("assigned-detection:", only=["field-"]))
 
 
+def ob_assignment_value_first(run, mir, rp, fam):
+    ob = run.ob("assignment-value-read-first", "E2", "gen_call Reassign with `:=`: the assigned value is generated in the incoming environment - where the target "
+                "field still counts as unassigned, so `self.z := self.z + 1` as first assignment of z reads an unassigned field - and only the target and what "
+                "follows see the field as assigned", ["gen_call (Reassign, :=)"])
+    fn = e2.find1(mir, file=CALL_RS, name="gen_call")
+    ex = Exec(mir, max_paths=20000)
+    st = State()
+    left, lpos = ckern.mk_ast("left", opq("left.node", "Node"))
+    right, _ = ckern.mk_ast("right", opq("right.node", "Node"))
+    lbox, rbox = Ref(ex.new_cell(st, left)), Ref(ex.new_cell(st, right))
+    node = ckern.mk_node("Reassign", {"left": lbox, "right": rbox, "op": Agg("NodeOp", "Assign", [])})
+    ast, _ = ckern.mk_ast("ast", node)
+    env, ctx, constr = ckern.refs(ex, st, "env", "ctx", "constr")
+    ends = e2.run_kernel(run, ex, fn, [Ref(ex.new_cell(st, ast)), env, ctx, constr], st)
+    claims, n_ok = [], 0
+    for p in ends:
+        if result_kind(p) != "Ok":
+            continue
+        n_ok += 1
+        s = p.state
+        gens = calls(p, "generate")
+        gr = [g for g in gens if z3.eq(g["argvals"][0], ex.to_val(s, rbox))]
+        gl = [g for g in gens if z3.eq(g["argvals"][0], ex.to_val(s, lbox))]
+        if len(gr) != 1 or len(gl) != 1 or calls(p, "reassign_op"):
+            claims.append(z3.Not(conj(p.cond)))
+            continue
+        order = gens.index(gr[0]) < gens.index(gl[0])
+        claims.append(z3.Implies(conj(p.cond), z3.And(gr[0]["argvals"][1] == ex.to_val(s, env), z3.BoolVal(order),
+                                                      ex.to_val(s, ex.project(s, p.ret, ("v", "Ok")).fields[0]) == gl[0]["argvals"][1])))
+    if not n_ok:
+        raise Unsupported("no Ok path")
+    f = e2.Family(rp)
+    cls = "class X\n    def z: Int\n\n    def __init__(self, start: Int) =>\n"
+    f.add("field-read-in-own-first-assignment", cls + "        self.z := self.z + start\n", "reject")
+    f.add("field-compound-before-first-assignment", cls + "        self.z += start\n        self.z := 1\n", "reject")
+    f.add("field-read-in-second-assignment", cls + "        self.z := start\n        self.z := self.z + 1\n", "accept")
+    f.add("field-compound-after-first-assignment", cls + "        self.z := start\n        self.z += 1\n", "accept")
+    f.add("other-field-read-in-assignment", "class X\n    def z: Int\n    def w: Int\n\n    def __init__(self, start: Int) =>\n        self.w := start\n        self.z := self.w + 1\n", "accept")
+    f.add("other-unassigned-field-read-in-assignment", "class X\n    def z: Int\n    def w: Int\n\n    def __init__(self, start: Int) =>\n        self.z := self.w + 1\n        self.w := start\n", "reject")
+    e2.prove(run, ob, ex, [], conj(claims), {}, f.as_replay("assignment-value:"))
+    if ob.status == "discharged":
+        k, bad = f.run()
+        run.validated += k
+        if bad:
+            ob.status = "pending"
+            ob.inconclusive(f"assignment family disagrees although the kernel is as specified: {bad[:2]}")
+    run.samples.append({"obligation": ob.id, "ok_paths": n_ok})
+
+
 COL_RS = ckern.GEN + "collection.rs"
 
 
@@ -698,7 +747,7 @@ def run(run):
                "outside: forward references between top-level definitions, comprehension variables, class scopes, match arms (constrain_cases loop)")
     run.trusted += ["rustc nightly MIR dump", "mirsym MIR semantics", "z3"]
     run.bounds = {"paths": "all paths, loops cut at headers"}
-    for f in (ob_lookup, ob_sequencing, ob_flow, ob_comprehension, ob_env_ops, ob_env_setters, ob_class_field_scope, ob_self_field, ob_assigned_detection):
+    for f in (ob_lookup, ob_sequencing, ob_flow, ob_comprehension, ob_env_ops, ob_env_setters, ob_class_field_scope, ob_self_field, ob_assigned_detection, ob_assignment_value_first):
         try:
             f(run, mir, rp, fam)
         except Unsupported as e:
